@@ -23,6 +23,8 @@ def _run(cmd, inp, timeout):
     except subprocess.TimeoutExpired:
         return "timeout", "", time.time() - t
     first = out.strip().splitlines()[0].strip() if out.strip() else ""
+    if first in ("timeout",) or "interrupted by timeout" in (out + err):
+        return "timeout", "", time.time() - t
     if first not in ("sat", "unsat", "unknown"):
         return "error", (out + err)[:2000], time.time() - t
     return first, out, time.time() - t
